@@ -36,14 +36,26 @@ def base_table(phase=0.0):
     return analytic_table(t, phase)
 
 
+VARIANT = 'plain'      # set per case: 'seam' = inverted flight next to the 180th meridian
+
+
 def analytic_table(t, phase=0.0):
     s = t - 100.0
     head = 150.0 + 11.0 * s + 3.0 * np.sin(s + phase)
+    roll = 50 * np.sin(0.9 * s)
+    lon = 151.0 + 2e-5 * s * s
+    alt = 100.0 + 3.3 * s - 0.1 * s * s
+    if VARIANT == 'seam':
+        # roll swings across +-180 deg (and depends on the phase, so that two tables differ across the seam), the
+        # longitude stays within 60 m of the 180th meridian, the flight level is 9 km
+        roll = (176.0 + 9.0 * np.sin(0.9 * s + 3.0 * phase) + 180.0) % 360.0 - 180.0
+        lon = 179.9993 + 2e-6 * s * s
+        alt = alt + 9000.0
     tab = pd.DataFrame({
-        'lat': -33.0 + 1e-4 * s + 1e-5 * np.sin(s + phase), 'lon': 151.0 + 2e-5 * s * s,
-        'alt': 100.0 + 3.3 * s - 0.1 * s * s,
+        'lat': -33.0 + 1e-4 * s + 1e-5 * np.sin(s + phase), 'lon': lon,
+        'alt': alt,
         'VN': 10 * np.sin(0.5 * s + phase), 'VE': -5 + 0.7 * s, 'VD': 0.1 * np.cos(s),
-        'roll': 50 * np.sin(0.9 * s), 'pitch': -85.0 + 28.0 * s + 0.3 * np.sin(s),
+        'roll': roll, 'pitch': -85.0 + 28.0 * s + 0.3 * np.sin(s),
         'heading': (head + 180.0) % 360.0 - 180.0}, index=pd.Index(t, name='time'))
     tab['pitch'] = np.clip(tab['pitch'], -85.0, 85.0)
     return tab[COLS]
@@ -186,6 +198,13 @@ def gen_cases(tier, seed):
     cases.append(dict(part='series', phase=ph))
     cases.append(dict(part='resample', phase=ph))
     cases.append(dict(part='perturb', phase=ph))
+    # the same algebra on the 'seam' table (roll across +-180 deg, longitude next to the 180th meridian, 9 km)
+    for a in range(0, len(subsets), 512):
+        cases.append(dict(part='subsample', masks=subsets[a:a + 512:4], phase=ph, variant='seam'))
+    for kind in ('jittered', 'shift_quarter', 'dense2', 'dense3', 'overlap_left', 'inside'):
+        cases.append(dict(part='pair', kind=kind, phase=ph, variant='seam'))
+    for part in ('series', 'resample', 'perturb'):
+        cases.append(dict(part=part, phase=ph, variant='seam'))
     for k in range(-6, 7):
         cases.append(dict(part='angles', k=k))
     cases.append(dict(part='angles', k=2000000))
@@ -497,6 +516,8 @@ def run_case(case):
         if len(viol) < 60:
             viol.append(dict(sig=sig, msg=msg))
 
+    global VARIANT
+    VARIANT = case.get('variant', 'plain')
     n = {'subsample': run_subsample, 'pair': run_pair, 'series': run_series, 'resample': run_resample,
          'perturb': run_perturb, 'angles': run_angles}[case['part']](case, v, stats)
     first = {}
